@@ -27,7 +27,6 @@ def decompileFrom (full : Prog) : Nat → List (Nat × Nat) → Nat → List Ins
 
 def decompile (p : Prog) : List Inst := decompileFrom p p.length p 0
 
-#eval decompile [(0,0),(1,1),(2,2),(0,3),(4,4),(4,5)]
 
 /-- every operand refers to an existing element -/
 def InRange : Prog → Nat → Prop
@@ -177,5 +176,4 @@ theorem decompile_ok (full : Prog) : ∀ (fuel : Nat) (pre rest : Prog), full = 
 theorem compile_decompile (p : Prog) (h : InRange p 0) : cAll [] (decompile p) = some p :=
   decompile_ok p p.length [] p rfl (Nat.le_refl _) h
 
-#print axioms compile_decompile
 end P.Sem
